@@ -13,3 +13,26 @@ Definition run (c : Z * Z * list byte * Z) : V :=
       Vresult (VO (fun o => VL [VHex (o_pkt o); VN (o_rtx_pt o); VN (o_rtx_seq o); VN (o_rtx_ssrc o)]))
               (rtx_unwrap (Z.to_N ppt) (Z.to_N pssrc) (unbytes buf) (Z.to_N i))
   end.
+
+(* histories: known payload types, initial track state (payload type, SSRC,
+   params present), events (primary?, whole buffer, byte count).
+   observation per event: primary  [ "p"; packet hex; checkAndUpdateTrack ok ]
+                          repair   as [run] *)
+Definition vrtx (r : result (option rtx_out)) : V :=
+  Vresult (VO (fun o => VL [VHex (o_pkt o); VN (o_rtx_pt o); VN (o_rtx_seq o); VN (o_rtx_ssrc o)])) r.
+
+Definition run_history (c : list Z * (Z * Z * bool) * list (bool * list byte * Z)) : V :=
+  match c with
+  | (pts, (pt0, ssrc, params), evs) =>
+      let known := fun p => existsb (N.eqb p) (map Z.to_N pts) in
+      let ev (e : bool * list byte * Z) : rtx_event :=
+        match e with
+        | (true, b, n) => EvPrimary (unbytes b) (Z.to_N n)
+        | (false, b, n) => EvRtx (unbytes b) (Z.to_N n)
+        end in
+      VL (map (fun o => match o with
+                        | ObsPrimary pkt ok => VL [VS "p"; VHex pkt; VB ok]
+                        | ObsRtx r => vrtx r
+                        end)
+              (rtx_history known (mkRtxState (Z.to_N pt0) (Z.to_N ssrc) params) (map ev evs)))
+  end.
